@@ -154,6 +154,9 @@ def should_ignore_error(error: Error | str, settings: Settings) -> bool:
 
 
 def run_refurb(settings: Settings) -> Sequence[Error | str]:
+    # The files may have changed since an earlier run in this process
+    get_source_lines.cache_clear()
+
     stdout = StringIO()
     stderr = StringIO()
 
